@@ -52,6 +52,7 @@ func main() {
 	out := flag.String("out", "", "rewritten copy")
 	require := flag.String("require", "os.OpenFile,os.File,bufio.NewWriter,bufio.Writer,time.Now,time.NewTicker",
 		"comma separated selectors that must occur")
+	loopFn := flag.String("loop", "stream", "method whose top-level for/select loop gets idle/busy hooks (\"\" = none)")
 	flag.Parse()
 	fset := token.NewFileSet()
 	f, err := parser.ParseFile(fset, *in, nil, parser.ParseComments)
@@ -137,6 +138,17 @@ func main() {
 			os.Exit(4)
 		}
 	}
+	// the stream loop: verifLoopIdle(s) before its select, verifLoopBusy(s) first in every case, so that the
+	// driver knows exactly when the loop has taken and finished everything it was given (no sleeps, no guessing)
+	if *loopFn != "" {
+		ni, nb := hookLoop(f, *loopFn)
+		if ni != 1 || nb < 2 {
+			fmt.Fprintf(os.Stderr, "snaprewrite: method %s with a top-level `for { select { ... } }` not found in %s (idle hooks %d, case hooks %d)\n",
+				*loopFn, *in, ni, nb)
+			os.Exit(4)
+		}
+		counts["loop.idle"], counts["loop.case"] = ni, nb
+	}
 	// drop imports that are no longer referenced
 	used := map[string]bool{}
 	ast.Inspect(f, func(n ast.Node) bool {
@@ -183,6 +195,51 @@ func main() {
 	}
 	sort.Strings(ks)
 	fmt.Println(strings.Join(ks, " "))
+}
+
+// hookLoop instruments the first top-level `for { ... select { ... } ... }` of the given method.
+func hookLoop(f *ast.File, name string) (idle, cases int) {
+	for _, d := range f.Decls {
+		fd, ok := d.(*ast.FuncDecl)
+		if !ok || fd.Body == nil || fd.Name.Name != name || fd.Recv == nil || len(fd.Recv.List) != 1 || len(fd.Recv.List[0].Names) != 1 {
+			continue
+		}
+		recv := fd.Recv.List[0].Names[0].Name
+		call := func(fn string) ast.Stmt {
+			return &ast.ExprStmt{X: &ast.CallExpr{Fun: ast.NewIdent(fn), Args: []ast.Expr{ast.NewIdent(recv)}}}
+		}
+		for _, st := range fd.Body.List {
+			if ls, ok := st.(*ast.LabeledStmt); ok {
+				st = ls.Stmt
+			}
+			fs, ok := st.(*ast.ForStmt)
+			if !ok || fs.Cond != nil || fs.Init != nil || fs.Post != nil {
+				continue
+			}
+			for i, bs := range fs.Body.List {
+				inner := bs
+				if ls, ok := inner.(*ast.LabeledStmt); ok {
+					inner = ls.Stmt
+				}
+				sel, ok := inner.(*ast.SelectStmt)
+				if !ok {
+					continue
+				}
+				for _, c := range sel.Body.List {
+					cc := c.(*ast.CommClause)
+					cc.Body = append([]ast.Stmt{call("verifLoopBusy")}, cc.Body...)
+					cases++
+				}
+				body := append([]ast.Stmt{}, fs.Body.List[:i]...)
+				body = append(body, call("verifLoopIdle"))
+				body = append(body, fs.Body.List[i:]...)
+				fs.Body.List = body
+				idle++
+				return
+			}
+		}
+	}
+	return
 }
 
 // rewriteAll applies fn to every expression slot of the file (post-order).
